@@ -246,4 +246,84 @@ class C08e(C15a3):
     title = 'execution budgets spent by an earlier Script never leak into a later one (per-Script detector state)'
 
 
-OBLIGATIONS = [C08a, C08b, C08c, C08d, C08e]
+import os as _os  # noqa: E402
+import pathlib as _pathlib  # noqa: E402
+
+import jedi as _jedi  # noqa: E402
+import jedi.api as _japi  # noqa: E402
+from jedi import settings as _settings  # noqa: E402
+
+
+class C08f(Obligation):
+    id = 'C08.f'
+    title = 'constructing a Script: the text analysed is the text given (or the file as it is NOW), never a tree from the on-disk cache; time caches are cleared; the inference state learns the ABSOLUTE location'
+    pattern = 'P3 (Script.__init__ with InferenceState / open / get_default_project as recording stubs; how code and path are given is symbolic)'
+    assumptions = (
+        'code is given or read from the path (symbolic); the path is absent, a relative str, an absolute str or a Path, '
+        'with suffix .py or .pyi (symbolic); settings.fast_parser is a symbolic flag; the parse itself is a stub that '
+        'records its arguments',
+    )
+
+    def scenario(self, ctx, cfg):
+        code_given = ctx.flag('code_given')
+        path_kind = ctx.choice('path_kind', 5)       # 0 none, 1 relative str, 2 absolute str, 3 relative Path, 4 absolute Path
+        pyi = ctx.flag('stub_file')
+        fast = ctx.flag('fast_parser')
+        ctx.int('unused')
+        name = 'pkg/mod.pyi' if pyi else 'pkg/mod.py'
+        raw = [None, name, '/abs/' + name, _pathlib.Path(name), _pathlib.Path('/abs/' + name)][path_kind]
+        absolute = None if raw is None else _pathlib.Path(_os.path.abspath(str(raw)))
+        ctx.patch(_settings, 'fast_parser', fast)
+        states = []
+        parses = []
+
+        class State:
+            def __init__(self, project, environment=None, script_path=None):
+                states.append((project, script_path))
+
+            def parse_and_get_code(self, **kw):
+                parses.append(kw)
+                return 'TREE', kw['code'] if isinstance(kw['code'], str) else kw['code'].decode()
+        ctx.patch(_japi, 'InferenceState', State)
+        asked_project = []
+        ctx.patch(_japi, 'get_default_project', lambda p=None: asked_project.append(p) or 'DEFAULT-PROJECT')
+        opened = []
+
+        class FH:
+            def __enter__(self):
+                return self
+
+            def __exit__(self, *a):
+                return False
+
+            def read(self):
+                return b'text_on_disk = 1\n'
+        ctx.patch(_japi, 'open', lambda p, mode='r': opened.append((p, mode)) or FH())
+        cleared = []
+        ctx.patch(_japi, 'cache', Obj(clear_time_caches=lambda *a: cleared.append(1)))
+        ctx.force(_jedi.Script.__init__)
+        script = _jedi.Script.__new__(_jedi.Script)
+        script._pysym_holder = True
+        out = ctx.call(_jedi.Script.__init__, script, 'given = 2\n' if code_given else None, path=raw)
+        if not code_given and raw is None:
+            ctx.check(out.raised(ValueError), 'neither code nor path: ValueError')
+            return
+        ctx.check(out.exc is None, 'never raises')
+        if out.exc is not None:
+            return
+        ctx.check(script.path == absolute and states == [('DEFAULT-PROJECT', absolute)],
+                  'Script.path and the script location of the inference state are the absolute path (None without path)')
+        ctx.check(asked_project == [None if absolute is None else absolute.parent], 'the default project is looked for from the absolute folder')
+        ctx.check(len(parses) == 1, 'the text is parsed once')
+        if len(parses) == 1:
+            kw = parses[0]
+            ctx.check(kw['cache'] is False, 'the tree never comes from / goes to the on-disk cache: the text at hand is parsed')
+            ctx.check(kw['diff_cache'] == fast and kw['path'] == absolute and bool(kw['use_latest_grammar']) == (raw is not None and pyi),
+                      'incremental parsing follows settings.fast_parser; path and grammar choice follow the file')
+            want = 'given = 2\n' if code_given else b'text_on_disk = 1\n'
+            ctx.check(kw['code'] == want and (code_given or len(opened) == 1), 'the text is the given one, else the file content read now')
+        ctx.check(len(cleared) == 1, 'the time caches are cleared')
+        ctx.check(script._code == ('given = 2\n' if code_given else 'text_on_disk = 1\n'), 'Script keeps the analysed text')
+
+
+OBLIGATIONS = [C08a, C08b, C08c, C08d, C08e, C08f]
